@@ -188,6 +188,27 @@ class SymArray(np.ndarray):
             kw.pop("initial", None) if kw.get("initial", 1) is np._NoValue else None
             kw2 = {k: v for k, v in kw.items() if k in ("axis", "keepdims") and v is not np._NoValue}
             return fn(inputs[0], **kw2)
+        if method in ("accumulate", "outer") and ufunc in _UF and out is None and not kw and \
+                all(isinstance(i, np.ndarray) and i.ndim == 1 for i in inputs):
+            # 1-D accumulate / outer of a binary ufunc: built from the element operation; dtype from a dummy run
+            fn2 = _UF[ufunc]
+            dres = getattr(ufunc, method)(*_dummy(list(inputs)))
+            if method == "accumulate":
+                xs = list(_unwrap(inputs[0]).astype(object) if isinstance(inputs[0], SymArray) else np.asarray(inputs[0], dtype=object))
+                acc, res = None, []
+                for x in xs:
+                    acc = x if acc is None else fn2(acc, x)
+                    res.append(acc)
+                o = np.empty(len(res), dtype=object)
+                o[:] = res
+            else:
+                xa = np.asarray(_unwrap(inputs[0]), dtype=object)
+                xb = np.asarray(_unwrap(inputs[1]), dtype=object)
+                o = np.empty((len(xa), len(xb)), dtype=object)
+                for i_, x in enumerate(xa):
+                    for j_, y in enumerate(xb):
+                        o[i_, j_] = fn2(x, y)
+            return _coerce(o, dres.dtype)
         if method != "__call__":
             raise Unsupported(f"ufunc method {method} of {ufunc.__name__}")
         for i in inputs + (out or ()):
